@@ -217,9 +217,9 @@ void dec_run(dec_spec *s, const lzma_allocator *a, const uint8_t *in, size_t in_
 		// what the first life decodes, and how far (see dec_common.h)
 		uint64_t wh = vhash(in, in_size < 64 ? in_size : 64, vhash(&in_size, sizeof(in_size), VHASH_INIT));
 		const uint8_t *wi = s->warm_in; size_t wn = s->warm_n;
-		const vbuf *cb = ((wh >> 8) & 1) ? contrast_input(s->kind, in, in_size) : NULL;
+		const vbuf *cb = (!s->warm_exact && ((wh >> 8) & 1)) ? contrast_input(s->kind, in, in_size) : NULL;
 		if (cb != NULL && cb->n) { wi = cb->p; wn = cb->n; }
-		const bool abandon = ((wh >> 9) & 1) && wn > 2;
+		const bool abandon = !s->warm_exact && ((wh >> 9) & 1) && wn > 2;
 		if (abandon) wn = 1 + (size_t)((wh >> 16) % (wn - 1));
 		if (s->warm_mon != NULL && s->warm_fail_at > 0) alloc_mon_fail_nth_from_now(s->warm_mon, (unsigned)s->warm_fail_at);
 		const lzma_ret wret = dec_init(&strm, s, a, wi, wn);
